@@ -144,8 +144,9 @@ CORPUS = [
 
 
 def run_scripts_safe(drv, lines, workdir, name="scripts", timeout=3000, env=None, case_timeout=60):
-    """like gridlib.run_scripts, but tolerant of a child that dies in the middle of an output line (the parent's
-    `x crash:..` / `x hang` note is then glued to a truncated observation): the truncated observation is dropped"""
+    """runs tsgdrv on the script; -> (rc, dict case id -> text block of that case, stderr).  Tolerant of a child that dies in the
+    middle of an output line (the parent's `x crash:..` / `x hang` note is then glued to a truncated observation, which is
+    dropped).  The text of a case is compared verbatim first; it is only parsed (gridlib.parse_output) when it differs."""
     import re
     os.makedirs(workdir, exist_ok=True)
     sp = os.path.join(workdir, name + ".txt")
@@ -154,14 +155,48 @@ def run_scripts_safe(drv, lines, workdir, name="scripts", timeout=3000, env=None
     rc, so, se = vlib.run([drv, sp, workdir, str(case_timeout)], timeout=timeout, env=env)
     with open(os.path.join(workdir, name + ".out"), "w") as fh:
         fh.write(so)
-    fixed = []
+    blocks, cur, cid = {}, None, None
     for line in so.split("\n"):
-        m = re.search(r"(?<!^)x (crash:\S+|hang) ", line)
-        if m and not line.startswith("x "):
-            fixed.append(line[m.start():])
-        else:
-            fixed.append(line)
-    return rc, gl.parse_output("\n".join(fixed)), so, se
+        if line.startswith("case "):
+            if cid is not None:
+                blocks[cid] = "\n".join(cur)
+            cid, cur = line[5:].strip(), [line]
+            continue
+        if cur is None:
+            continue
+        if not line.startswith("x "):
+            m = re.search(r"x (crash:\S+|hang) ", line)
+            if m:
+                line = line[m.start():]
+        cur.append(line)
+    if cid is not None:
+        blocks[cid] = "\n".join(cur)
+    return rc, blocks, se
+
+
+def parse_block(text, cid):
+    return gl.parse_output(text).get(cid, [])
+
+
+CHANGING = ("refsurp", "refsimple", "refaniso", "update", "deliver", "finish")
+
+
+def block_facts(text):
+    """(serial run crashed or hung, number of successful state-changing commands) from the text of one case"""
+    broken, nchg, last = None, 0, None
+    for line in text.split("\n"):
+        if line.startswith("c "):
+            w = line.split(None, 2)
+            last = w[1] if len(w) > 1 else None
+            if last in CHANGING:
+                nchg += 1
+        elif line.startswith("x "):
+            w = line.split()
+            if w[1] == "hang" or w[1].startswith("crash"):
+                broken = (last or "?") + " -> " + w[1]
+            if last in CHANGING:
+                nchg -= 1
+    return broken, nchg
 
 
 def omp_env(threads, sched):
@@ -271,15 +306,37 @@ def run(res, tier, seed, replay_script=None):
         for cid in bids:
             blines += scripts[cid]
         tagb = "" if len(ids) <= BATCH else "-b%d" % (b0 // BATCH)
-        rc0, ref, so0, se0 = run_scripts_safe(pdrv, blines, os.path.join(WORK, "plain" + tagb), "scripts", timeout=3000, case_timeout=60)
+        rc0, ref, se0 = run_scripts_safe(pdrv, blines, os.path.join(WORK, "plain" + tagb), "scripts", timeout=3000, case_timeout=60)
         if rc0 != 0:
             res.violation("tsgdrv-crash", "tsgdrv (plain) exited with %d: %s" % (rc0, se0[-300:]), {"kind": "impl-counterexample", "script": blines[:40]})
+        facts_of = {cid: block_facts(ref.get(cid, "")) for cid in bids}
+        for cid in bids:
+            if facts_of[cid][0]:
+                # the SERIAL build itself crashes / does not return on this script: not a statement about OpenMP (counted)
+                serial_broken.add("%s: %s ; %s" % (cid, scripts[cid][1], facts_of[cid][0]))
+            if facts_of[cid][1] >= 1:
+                nontriv.add(hashlib.sha256("\n".join(scripts[cid][1:]).encode()).hexdigest())
 
-        def one(cfg, blines=blines, tagb=tagb):
+        def one(cfg, blines=blines, tagb=tagb, ref=ref, bids=bids, facts_of=facts_of):
             t, s = cfg
             wd = os.path.join(WORK, "omp-%d-%s%s" % (t, s.replace(",", "_"), tagb))
-            rc, cases, so, se = run_scripts_safe(odrv, blines, wd, "scripts", timeout=3000, env=omp_env(t, s), case_timeout=90)
-            return cfg, rc, cases, se
+            rc, got, se = run_scripts_safe(odrv, blines, wd, "scripts", timeout=3000, env=omp_env(t, s), case_timeout=90)
+            same, differing, missing = 0, [], []
+            for cid in bids:
+                if facts_of[cid][0]:
+                    continue
+                if cid not in got or cid not in ref:
+                    missing.append(cid)
+                elif got[cid] == ref[cid]:
+                    same += 1
+                else:
+                    differing.append((cid, got[cid]))
+            if not differing and not missing and rc == 0:
+                try:
+                    os.remove(os.path.join(wd, "scripts.out"))      # nothing to look at: keep the work directory small
+                except OSError:
+                    pass
+            return cfg, rc, same, differing, missing, se
         # the full cross product thread counts x schedules for the first FULL_CROSS scripts; after that every script still runs
         # with all five thread counts, the schedule rotating with the batch (OMP_SCHEDULE only matters for schedule(runtime)
         # loops, of which the source has none) - this keeps the thorough tier inside its time budget
@@ -287,34 +344,32 @@ def run(res, tier, seed, replay_script=None):
         nruns += len(bids) * (len(bconfigs) + 1)
         with cf.ThreadPoolExecutor(pool) as ex:
             results = list(ex.map(one, bconfigs))
-        for (t, s), rc, cases, se in results:
+        for (t, s), rc, same, differing, missing, se in results:
             if rc != 0:
                 res.violation("tsgdrv-crash", "tsgdrv (omp, %d threads, %s) exited with %d: %s" % (t, s, rc, se[-300:]),
                               {"kind": "impl-counterexample", "script": blines[:40]})
                 continue
-            for cid in bids:
+            stats["cases_compared"] += same
+            stats["obs_exact"] += same
+            for cid in missing:
+                res.violation("omp-no-result", "case %s missing in the output of one build" % cid,
+                              {"kind": "impl-counterexample", "script": scripts[cid], "threads": t, "schedule": s})
+            for cid, text in differing:
                 ls = scripts[cid]
-                a, b = ref.get(cid), cases.get(cid)
-                if a is None or b is None:
-                    res.violation("omp-no-result", "case %s missing in the output of the %s build" % (cid, "plain" if a is None else "omp"),
-                                  {"kind": "impl-counterexample", "script": ls, "threads": t, "schedule": s})
-                    continue
-                if any(st.exc and (st.exc[0] == "hang" or st.exc[0].startswith("crash")) for st in a):
-                    # the SERIAL build itself crashes / does not return on this script: not a statement about OpenMP (counted)
-                    serial_broken.add("%s: %s" % (cid, " ; ".join(ls[1:2] + [st.cmd[:60] for st in a if st.exc and st.exc[0] != "invalid_argument"][:1])))
-                    continue
+                a, b = parse_block(ref[cid], cid), parse_block(text, cid)
                 if any(st.exc and st.exc[0] == "hang" for st in b):
                     # a time-out is a finding only after a second run of this script alone with a 10x budget
                     stats["hang_retries"] += 1
-                    rc2, again, so2, se2 = run_scripts_safe(odrv, ls, os.path.join(WORK, "retry"), "retry-%s-%d" % (cid, t), timeout=1200,
-                                                            env=omp_env(t, s), case_timeout=600)
-                    b = again.get(cid, b)
+                    rc2, again, se2 = run_scripts_safe(odrv, ls, os.path.join(WORK, "retry"), "retry-%s-%d" % (cid, t), timeout=1200,
+                                                       env=omp_env(t, s), case_timeout=600)
+                    if cid in again:
+                        b = parse_block(again[cid], cid)
                 diffs, inexact = compare_case(a, b)
                 stats["cases_compared"] += 1
                 if inexact:
                     stats["numeric_within_tol_not_bitwise"] += 1
                 if not diffs:
-                    stats["obs_exact"] += 1
+                    stats["obs_exact"] += 0 if inexact else 1
                     continue
                 fam = specs.get(cid, {}).get("family") or (ls[1].split()[1] if len(ls) > 1 else "?")
                 for sev, tag, i, cmd, detail in diffs[:3]:
@@ -328,12 +383,12 @@ def run(res, tier, seed, replay_script=None):
                     res.violation(key, "OpenMP build with OMP_NUM_THREADS=%d OMP_SCHEDULE=%s differs from the serial build in `%s` after `%s`: %s [%s]"
                                   % (t, s, tag, cmd[:80], detail, ls[1]),
                                   {"kind": "impl-counterexample", "script": ls, "threads": t, "schedule": s, "observation": tag, "detail": detail})
-        for cid in bids:
-            st = ref.get(cid) or []
-            nchg = sum(1 for x in st if x.cmd.split()[0] in ("refsurp", "refsimple", "refaniso", "update", "deliver", "finish") and x.exc is None)
-            if nchg >= 1:
-                nontriv.add(hashlib.sha256("\n".join(scripts[cid][1:]).encode()).hexdigest())
         del ref, results
+        if len(ids) > BATCH and not res.violations:
+            try:
+                os.remove(os.path.join(WORK, "plain" + tagb, "scripts.out"))
+            except OSError:
+                pass
 
     # ---- particle swarm: the velocity loop of ParticleSwarm() is the only OpenMP region of DREAM/
     swarm = {"cases": 0, "configs": 0, "differences": 0}
